@@ -451,6 +451,9 @@ def st_unknown(draw):
     pre = list(dict.fromkeys(pre))
     what, fail = gen.choice(r, [("unsupported_VN", "H\tzy:i:1\tVN:Z:3.0"), ("unsupported_VN", "H\tVN:Z:3.0"),
                                 ("header_conflict", "H\tzy:i:1\tTS:i:6"), ("malformed_header", "H\tzy:i:1\tzz:i:x"),
+                                ("header_conflict", "H\tVN:Z:%s\tTS:i:6" % ("1.0" if v == "gfa1" else "2.0")),
+                                ("header_conflict", "H\tTS:i:6\tVN:Z:%s" % ("1.0" if v == "gfa1" else "2.0")),
+                                ("header_conflict", "H\tzy:i:1\tVN:Z:%s\tzx:i:3" % ("1.0" if v == "gfa1" else "2.0")),
                                 ("malformed_segment", "S\tA\t10"), ("malformed_segment", "S\ta b\t*"),
                                 ("malformed_edge", "E\t*\tA+\tB-\t5\t3\t0\t1\t*\txx:i:q"),
                                 ("malformed_gap", "G\t*\tA+\tB-\tx\t*")])
@@ -461,6 +464,8 @@ def st_unknown(draw):
         what, fail = "deciding_line_with_refused_queued_line", gen.choice(r, ["S\tzz\t*", "H\tVN:Z:1.0", "S\tzz\t7\t*", "E\t*\tzz+\tzy+\t0\t1\t0\t1\t*"])
     if what == "header_conflict" and "H\tTS:i:5" not in pre:
         pre.append("H\tTS:i:5")
+    if what == "header_conflict" and "zx:i:3" in fail and "H\tzx:Z:first" not in pre:
+        pre.append("H\tzx:Z:first")
     then_ok = not (what.startswith("malformed_e") or what.startswith("malformed_g")) or v == "gfa2"
     return {"vlevel": gen.choice(r, [1, 2, 3]), "pre": pre, "fail": fail, "what": what, "then": v, "then_ok": False}
 
